@@ -178,6 +178,57 @@ func fileOfBodyCtx(b *hclsyntax.Body, ctx *hcl.EvalContext) (f *AFile, ok bool) 
 	return f, ok
 }
 
+// ---- numbers that cannot be printed ---------------------------------------------------------
+//
+// hv.CoqNum prints a number as an exact fraction of two decimal integers.  A mutated text can hold a short
+// literal with an enormous exponent (`1e99999999`, ten bytes): its numerator has a hundred million digits and
+// math/big needs many minutes of one core to print it (this, not the number of cases, made one thorough run
+// take 17 minutes).  Such a value is outside the comparison anyway (hv.NumExact: more than 200 significant
+// bits -> inexact -> the case is not emitted), so it is recognised BEFORE printing: binary exponent beyond
+// +-4096 (a decimal literal of that size needs 5^k with k > 1200, i.e. more than 200 bits, so nothing that
+// would have been compared is lost; exact powers of two of that size can only come from arithmetic and are
+// counted under the same histogram key).
+const maxPrintableExp = 4096
+
+func hugeNumberVal(v cty.Value) bool {
+	v, _ = v.Unmark()
+	if !v.IsKnown() || v.IsNull() {
+		return false
+	}
+	ty := v.Type()
+	switch {
+	case ty == cty.Number:
+		bf := v.AsBigFloat()
+		if bf.IsInf() || bf.Sign() == 0 {
+			return false
+		}
+		e := bf.MantExp(nil)
+		return e > maxPrintableExp || e < -maxPrintableExp
+	case ty.IsCollectionType() || ty.IsTupleType() || ty.IsObjectType():
+		for it := v.ElementIterator(); it.Next(); {
+			_, ev := it.Element()
+			if hugeNumberVal(ev) {
+				return true
+			}
+		}
+	}
+	return false
+}
+
+func hugeNumber(f *AFile) bool {
+	for _, a := range f.Attrs {
+		if hugeNumberVal(a.V) {
+			return true
+		}
+	}
+	for _, b := range f.Blocks {
+		if hugeNumber(b.Body) {
+			return true
+		}
+	}
+	return false
+}
+
 // ---- Coq rendering ---------------------------------------------------------------------
 
 func coqStrList(ss []string) string {
@@ -390,7 +441,7 @@ func perturb(r *hv.Rng, t *Ty, f *AFile) (kind string, jsonComparable bool) {
 				return "drop-attr", true
 			}
 		case 1: // extra attribute
-			f.Attrs = append(f.Attrs, AAttr{fmt.Sprintf("zz_extra%d", len(f.Attrs)), wrongVals[r.Intn(len(wrongVals))]})
+			f.Attrs = append(f.Attrs, AAttr{extraAttrName(f), wrongVals[r.Intn(len(wrongVals))]})
 			return "extra-attr", true
 		case 2, 3: // wrong type for an attribute
 			if len(f.Attrs) > 0 {
@@ -464,8 +515,27 @@ func perturb(r *hv.Rng, t *Ty, f *AFile) (kind string, jsonComparable bool) {
 			}
 		}
 	}
-	f.Attrs = append(f.Attrs, AAttr{fmt.Sprintf("zz_extra%d", len(f.Attrs)), cty.True})
+	f.Attrs = append(f.Attrs, AAttr{extraAttrName(f), cty.True})
 	return "extra-attr", true
+}
+
+// extraAttrName: a name for an added attribute that no attribute of the file has yet.  (Numbering by
+// len(f.Attrs) alone repeats a name after extra-attr, drop-attr, extra-attr: the native writer's
+// SetAttributeValue then REPLACES the first one while the JSON document gets the property twice, and the
+// two texts are no longer the same file.)
+func extraAttrName(f *AFile) string {
+	for i := len(f.Attrs); ; i++ {
+		n := fmt.Sprintf("zz_extra%d", i)
+		used := false
+		for _, a := range f.Attrs {
+			if a.Name == n {
+				used = true
+			}
+		}
+		if !used {
+			return n
+		}
+	}
 }
 
 var _ = hcl.InitialPos
